@@ -138,6 +138,16 @@ def make_variant(u: dict) -> typing.Optional[dict]:
                                 x = x["elem"]
                             if x and x["t"] == "ref" and f"{x['full']}.{x['major']}.{x['minor']}" == dep_key:
                                 x["full"] = ".".join(dep["ns"] + [dep["name"]])
+                # and a field of some type is RENAMED (same type, same position: name, version and bit layout of the composite
+                # stay what they were, which is all that PyDSDL's equality looks at)
+                for vt in vroot["types"]:
+                    if vt["kind"] == "service":
+                        continue
+                    fields = [va for va in vt["body"]["attrs"] if va["k"] == "field"]
+                    names = {va.get("name") for va in vt["body"]["attrs"]}
+                    if fields and fields[-1]["name"] + "Rev" not in names:
+                        fields[-1]["name"] += "Rev"
+                        break
                 return v
     return None
 
